@@ -90,19 +90,6 @@ class SparseValidate(FunctionContract):
         return sparse_valid(blk, address, count)
 
 
-class SlaveValidate(FunctionContract):
-    """ModbusSlaveContext.validate: the documented one-based offset unless zero_mode, table by function code"""
-    qual = SLAVE + '.validate'
-    props = ('C18', 'C04', 'C05')
-    callee_contracts = ()
-
-    def make(self, E):
-        raise NotImplementedError
-
-    def pre(self, E, ctx, fx, address, count=1):
-        return True
-
-
 def slave_context(E, name='ctx', shared=False, zero_mode=None):
     """a slave context over four sequential blocks (bit tables hold bools); zero_mode symbolic unless given"""
     blocks = {}
@@ -114,3 +101,93 @@ def slave_context(E, name='ctx', shared=False, zero_mode=None):
 
 def offset(ctx):
     return L.ite(ctx.zero_mode, 0, 1)
+
+
+class SparseGetValues(FunctionContract):
+    qual = SPARSE + '.getValues'
+    props = ('C18', 'C04', 'C05')
+
+    def make(self, E):
+        return [sparse_block(E, 's'), E.int('address'), E.int('count')], {}
+
+    def pre(self, E, blk, address, count=1):
+        return L.And(count >= 1, sparse_valid(blk, address, count))
+
+    def spec(self, E, blk, address, count=1):
+        return L.seq(count, lambda k: L.map_get(blk.values, address + k))
+
+
+# ----------------------------------------------------------------------------- generic block view (dispatch on class)
+def block_valid(E, blk, address, count):
+    if E.classname(blk) == 'ModbusSparseDataBlock':
+        return sparse_valid(blk, address, count)
+    return seq_valid(blk, address, count)
+
+
+def block_cell(E, blk, a):
+    if E.classname(blk) == 'ModbusSparseDataBlock':
+        return L.map_get(blk.values, a)
+    return L.at(blk.values, a - blk.address)
+
+
+def block_has(E, blk, a):
+    if E.classname(blk) == 'ModbusSparseDataBlock':
+        return L.map_has(blk.values, a)
+    return seq_in_domain(blk, a)
+
+
+def table(ctx, fx):
+    return ctx.store[TABLE_OF_FC[fx]]
+
+
+class SlaveValidate(FunctionContract):
+    """ModbusSlaveContext.validate: table chosen by function code, documented +1 offset unless zero_mode"""
+    qual = SLAVE + '.validate'
+    props = ('C18', 'C04', 'C05')
+    callee_contracts = (SeqValidate(),)
+
+    def make(self, E):
+        return [slave_context(E), E.choice('fx', sorted(TABLE_OF_FC)), E.int('address', 0, 65536), E.int('count', 0, 65536)], {}
+
+    def spec(self, E, ctx, fx, address, count=1):
+        return block_valid(E, table(ctx, fx), address + offset(ctx), count)
+
+
+class SlaveGetValues(FunctionContract):
+    qual = SLAVE + '.getValues'
+    props = ('C18', 'C04', 'C05')
+    callee_contracts = (SeqGetValues(),)
+
+    def make(self, E):
+        return [slave_context(E), E.choice('fx', sorted(TABLE_OF_FC)), E.int('address', 0, 65536), E.int('count', 0, 65536)], {}
+
+    def pre(self, E, ctx, fx, address, count=1):
+        return L.And(count >= 1, block_valid(E, table(ctx, fx), address + offset(ctx), count))
+
+    def spec(self, E, ctx, fx, address, count=1):
+        blk, off = table(ctx, fx), offset(ctx)
+        return L.seq(count, lambda k: block_cell(E, blk, address + off + k))
+
+
+class SlaveSetValues(FunctionContract):
+    qual = SLAVE + '.setValues'
+    props = ('C18', 'C04', 'C05')
+    callee_contracts = (SeqSetValues(),)
+
+    def make(self, E):
+        fx = E.choice('fx', sorted(TABLE_OF_FC))
+        vals = E.bools('new', minlen=1) if TABLE_OF_FC[fx] in BIT_TABLES else E.ints('new', 0, 65536, minlen=1)
+        return [slave_context(E), fx, E.int('address', 0, 65536), vals], {}
+
+    def pre(self, E, ctx, fx, address, values):
+        return L.And(L.length(values) >= 1, block_valid(E, table(ctx, fx), address + offset(ctx), L.length(values)))
+
+    def spec(self, E, ctx, fx, address, values):
+        blk = table(ctx, fx)
+        old, n, s = blk.values, L.length(values), address + offset(ctx) - blk.address
+        blk.values = L.seq(L.length(old), lambda k: L.ite(L.And(k >= s, k < s + n), L.at(values, k - s), L.at(old, k)))
+        return None
+
+
+STORE_CONTRACTS = (SeqValidate(), SeqGetValues(), SeqSetValues(), SparseValidate(), SparseGetValues())
+SLAVE_CONTRACTS = (SlaveValidate(), SlaveGetValues(), SlaveSetValues())
